@@ -422,6 +422,8 @@ def run(ctx, lean_ok):
             ctx.oblige('correspondence Oil.getOil / mfGasFull, mfOilFull / betaGuess / gasFraction / stdRate (oracle table: recorded flash, '
                        'density, root) == dbm_utilities.get_oil, mix_gas_for_gor, gas_fraction, set_mass_fluxes on %d cases (rel %g)'
                        % (len(owners), TOL['gen_vs_source']), nbad == 0, '%d cases disagree' % nbad)
+    for v in ctx.violations:
+        ctx.count('predicate failed: ' + v['key'])
     ctx.notes.append('worst deviations: ' + ', '.join('%s=%.3g' % kv for kv in sorted(worst.items())))
     ctx.notes.append('tolerances: TOL_RATE=%g, TOL_GOR=%g (fsolve xtol 1.49e-8 on beta x sensitivity <= 100); slowest get_oil call %.1f s'
                      % (TOL_RATE, TOL_GOR, tmax))
